@@ -11,6 +11,12 @@ C14-a.  The unchanged code violated the "tears down exactly like inline" part: d
 `Teardown` without the slice loader (`teardown_without_load_counterexample`).  The model (`controller`) is the
 code AFTER the fix proposed in findings/C14-a/fix.diff; `controllerPreFix` keeps the old control flow.
 
+Phases that carry a class (delegated to an ObjectSetPhase controller) are part of the model of the ObjectSet
+controller: the loader is class-agnostic (`load_class_agnostic`, `load_inverts_chunk_any_class`) and the
+ObjectSetPhase object of a delegated phase is created with ALL objects of the phase, inline or sliced
+(`sliced_eq_inline`, `sliced_delegated_phase_gets_all_objects`).  The line driver's hash is injective up to the REAL
+FNV-32 collisions a scenario declares (`drv_hash_recognised`, `drv_declared_collision`, `drv_run_monitor_ok`).
+
 Not covered here (built separately on the shared in-memory API store): the differential of a sliced vs. inline
 ObjectSet through the REAL phase reconciler (`sliced_rollout_eq_inline` of DESIGN.md is established here only at
 the per-phase seam, `sliced_eq_inline`).
@@ -23,6 +29,7 @@ import Pko.Lemmas.C14Store
 import Pko.Lemmas.C14Deploy
 import Pko.Lemmas.C14Load
 import Pko.Lemmas.C14Term
+import Pko.Drv.C14
 
 namespace Pko.Props.C14
 open Pko.Model.Chunk Pko.Model.ChunkSpec Pko.Model.ChunkRun Pko.Lemmas.C14
@@ -540,35 +547,119 @@ theorem run_monitor_ok (limit : Nat) (strat : Strategy) (hash : List Obj → Nat
 /-! ## Sliced ObjectSets behave like inline ones (at the per-phase seam) -/
 
 /-- **sliced_eq_inline**: if all referenced slices exist, one pass of the ObjectSet controller over the sliced
-ObjectSet — active, archived or deleted; whichever phase's teardown is still pending — hands the per-phase
-worker exactly the calls (phase, objects, order) it hands it for the same ObjectSet with the objects inline,
-and ends with the same result, Archived condition and finalizer decision. -/
-theorem sliced_eq_inline (mode : Mode) (st : Store Name) (t : Template Name) (wait : Option Nat)
+ObjectSet — active, archived or deleted; whichever phase's teardown is still pending; WHATEVER phases carry a
+class (are delegated to an ObjectSetPhase controller) and whatever exists of their ObjectSetPhase objects —
+makes exactly the calls (phase, objects, order; in-process worker calls as well as ObjectSetPhase creations with
+their `.spec.objects` and ObjectSetPhase deletions) it makes for the same ObjectSet with the objects inline, and
+ends with the same result, Archived / Available / InTransition conditions and finalizer decision. -/
+theorem sliced_eq_inline (mode : Mode) (st : Store Name) (t : Template Name) (rem : List RState) (wait : Option Nat)
     (d : List (List Obj)) (hd : decode st t = some d) :
-    visible (controller mode st t wait) = visible (controller mode ([] : Store Name) (inlineTwin d) wait) := by
+    visible (controller mode st t rem wait) =
+      visible (controller mode ([] : Store Name) (inlineTwinOf t d) rem wait) := by
+  have hlen := decode_length hd
   cases hl : loadPhases st [] t with
   | mk st' rest =>
     obtain ⟨upd, phases, ok⟩ := rest
     obtain ⟨_, _, hres⟩ := loadPhases_spec t st [] st' upd phases ok (LInv.init st) hl
     simp only [hd] at hres
     obtain ⟨rfl, rfl, _⟩ := hres
-    simp only [controller, hl, loadPhases_inline]
+    simp only [controller, hl, loadPhases_inlineOf t phases [] hlen, inlineTwinOf_cls t phases hlen]
     cases mode with
-    | active => cases hasDup (phases.flatten.map (·.id)) <;> simp [visible]
+    | active =>
+      simp only [finish, finishActive]
+      cases hasDup ((List.flatMap (·.2.2) (phaseInfos (t.map (·.cls)) rem phases)).map (·.id)) with
+      | true => simp [visible]
+      | false =>
+        simp only [Bool.false_eq_true, ↓reduceIte]
+        cases reconcileCalls (phaseInfos (t.map (·.cls)) rem phases) with
+        | mk calls r => obtain ⟨err, av⟩ := r; cases err <;> simp [visible]
     | archived =>
-      simp only [finishTeardown]
-      cases teardownCalls wait (indexed phases).reverse with
+      simp only [finish, finishTeardown]
+      cases teardownCalls wait (phaseInfos (t.map (·.cls)) rem phases).reverse with
       | mk calls done => cases done <;> simp [visible]
     | deleted =>
-      simp only [finishTeardown]
-      cases teardownCalls wait (indexed phases).reverse with
+      simp only [finish, finishTeardown]
+      cases teardownCalls wait (phaseInfos (t.map (·.cls)) rem phases).reverse with
       | mk calls done => cases done <;> simp [visible]
 
+/-- **sliced_delegated_phase_gets_all_objects**: the clause of `sliced_eq_inline` seeded defect C14-1 breaks,
+spelled out.  An active ObjectSet whose phase `i` carries a class and whose ObjectSetPhase does not exist yet, all
+earlier phases being local: the ObjectSetPhase is created with exactly the objects phase `i` decodes to — inline
+objects followed by the objects of all its slices —, never with the inline part only. -/
+theorem sliced_delegated_phase_gets_all_objects (st : Store Name) (pre : Template Name) (ph : Phase Name)
+    (post : Template Name) (rem : List RState) (wait : Option Nat) (d : List (List Obj))
+    (hd : decode st (pre ++ ph :: post) = some d)
+    (hpre : ∀ p ∈ pre, p.cls = false) (hcls : ph.cls = true) (hrem : rem.getD pre.length .absent = .absent)
+    (hnodup : hasDup (d.flatten.map (·.id)) = false) :
+    ∃ objs, decodePhase st ph = some objs ∧ d[pre.length]? = some objs ∧
+      (controller .active st (pre ++ ph :: post) rem wait).calls.getLast? =
+        some { teardown := false, phase := pre.length, objects := objs, remote := true } := by
+  -- split what the ObjectSet decodes to along `pre ++ ph :: post`
+  obtain ⟨dpre, drest, hdpre, hdrest, rfl⟩ := decode_append hd
+  have hlen : dpre.length = pre.length := decode_length hdpre
+  simp only [decode] at hdrest
+  cases hp : decodePhase st ph with
+  | none => simp [hp] at hdrest
+  | some objs =>
+    cases hdpost : decode st post with
+    | none => simp [hp, hdpost] at hdrest
+    | some dpost =>
+      simp only [hp, hdpost, Option.some.injEq] at hdrest
+      subst hdrest
+      refine ⟨objs, rfl, by simp [← hlen], ?_⟩
+      -- the loader returns exactly the decoding
+      cases hl : loadPhases st [] (pre ++ ph :: post) with
+      | mk st' rest =>
+        obtain ⟨upd, phases, ok⟩ := rest
+        obtain ⟨_, _, hres⟩ := loadPhases_spec (pre ++ ph :: post) st [] st' upd phases ok (LInv.init st) hl
+        simp only [hd] at hres
+        obtain ⟨rfl, rfl, _⟩ := hres
+        simp only [controller, hl, finish, finishActive, phaseInfos, phaseInfosFrom_objs, hnodup,
+          Bool.false_eq_true, ↓reduceIte]
+        -- classes: the phases before `ph` are local, `ph` is delegated
+        have hloc : ∀ j, 0 ≤ j → j < 0 + dpre.length →
+            (List.map (·.cls) (pre ++ ph :: post)).getD j false = false := by
+          intro j _ hj
+          have hj' : j < pre.length := by omega
+          simp only [List.map_append, List.getD_eq_getElem?_getD,
+            List.getElem?_append_left (show j < (List.map (·.cls) pre).length by simpa using hj')]
+          simp only [List.getElem?_map, List.getElem?_eq_getElem hj', Option.map_some, Option.getD_some]
+          exact hpre _ (List.getElem_mem hj')
+        have hdel : (List.map (·.cls) (pre ++ ph :: post)).getD (0 + dpre.length) false = true := by
+          simp only [Nat.zero_add, hlen, List.map_append, List.map_cons, List.getD_eq_getElem?_getD]
+          rw [List.getElem?_append_right (by simp)]
+          simp [hcls]
+        obtain ⟨cs, hcs⟩ := reconcileCalls_local_prefix (List.map (·.cls) (pre ++ ph :: post)) rem dpre
+          (objs :: dpost) 0 hloc
+        have hrem' : rem.getD (0 + dpre.length) .absent = .absent := by simpa [hlen] using hrem
+        simp only [hcs, phaseInfosFrom, hdel, ↓reduceIte, hrem', reconcileCalls]
+        simp [hlen]
+
+/-- **load_class_agnostic**: the slice loader does not look at a phase's class: re-labelling which phases are
+delegated changes neither what is loaded nor which slices get the owner reference. -/
+theorem load_class_agnostic (f : Phase Name → Bool) (st : Store Name) (upd : List Name) (t : Template Name) :
+    loadPhases st upd (withCls f t) = loadPhases st upd t :=
+  loadPhases_withCls f t st upd
+
+/-- **load_inverts_chunk_any_class**: `load_inverts_chunk` for a phase with or without class (`chunkPhase` edits
+the phase's objects / slices in place and leaves the class alone): loading gives back exactly the original
+objects. -/
+theorem load_inverts_chunk_any_class (limit : Nat) (strat : Strategy) (hash : List Obj → Nat → Name)
+    (st st' : Store Name) (objs : List Obj) (po : Phase Name) (c : Bool)
+    (h : chunkPhase limit strat hash st objs = some (st', some po)) :
+    ∃ st'' upd, loadPhases st' [] [{ po with cls := c }] = (st'', upd, [objs], true) := by
+  obtain ⟨st'', upd, hl⟩ := load_inverts_chunk limit strat hash st st' objs po h
+  refine ⟨st'', upd, ?_⟩
+  have := loadPhases_withCls (fun _ => c) [po] st' []
+  simp only [withCls, List.map_cons, List.map_nil] at this
+  rw [this, hl]
+
 /-- A missing slice makes the controller fail without touching anything, in every mode. -/
-theorem missing_slice_fails (mode : Mode) (st : Store Name) (t : Template Name) (wait : Option Nat)
-    (hd : decode st t = none) :
-    (controller mode st t wait).res = .err ∧ (controller mode st t wait).calls = [] ∧
-    (controller mode st t wait).finalizerRemoved = false ∧ (controller mode st t wait).archived = none := by
+theorem missing_slice_fails (mode : Mode) (st : Store Name) (t : Template Name) (rem : List RState)
+    (wait : Option Nat) (hd : decode st t = none) :
+    (controller mode st t rem wait).res = .err ∧ (controller mode st t rem wait).calls = [] ∧
+    (controller mode st t rem wait).finalizerRemoved = false ∧ (controller mode st t rem wait).archived = none ∧
+    (controller mode st t rem wait).available = none ∧ (controller mode st t rem wait).inTransition = false := by
   cases hl : loadPhases st [] t with
   | mk st' rest =>
     obtain ⟨upd, phases, ok⟩ := rest
@@ -579,18 +670,64 @@ theorem missing_slice_fails (mode : Mode) (st : Store Name) (t : Template Name) 
 
 /-- **ctl_monitor_ok** (monitor vs. model, controller): the model's sliced run and the model's run of the inline
 twin satisfy the transparency check `ctlOk` the monitor evaluates on the two implementation runs. -/
-theorem ctl_monitor_ok (mode : Mode) (st : Store Name) (t : Template Name) (wait : Option Nat)
+theorem ctl_monitor_ok (mode : Mode) (st : Store Name) (t : Template Name) (rem : List RState) (wait : Option Nat)
     (inl : CtlOut Name)
-    (hinl : ∀ d, decode st t = some d → visible inl = visible (controller mode ([] : Store Name) (inlineTwin d) wait)) :
-    ctlOk st t (controller mode st t wait) inl = true := by
+    (hinl : ∀ d, decode st t = some d →
+      visible inl = visible (controller mode ([] : Store Name) (inlineTwinOf t d) rem wait)) :
+    ctlOk st t (controller mode st t rem wait) inl = true := by
   simp only [ctlOk]
   cases hd : decode st t with
   | none =>
-    obtain ⟨h1, h2, h3, h4⟩ := missing_slice_fails mode st t wait hd
-    simp [h1, h2, h3, h4]
+    obtain ⟨h1, h2, h3, h4, h5, h6⟩ := missing_slice_fails mode st t rem wait hd
+    simp [h1, h2, h3, h4, h5, h6]
   | some d =>
     simp only [beq_iff_eq]
-    rw [sliced_eq_inline mode st t wait d hd, hinl d hd]
+    rw [sliced_eq_inline mode st t rem wait d hd, hinl d hd]
+
+end
+
+/-! ## The driver's hash: injective up to the declared REAL collisions -/
+
+section
+open Pko.Drv.C14
+
+/-- The hash the line driver instantiates the model with — symbolic names, injective up to the real FNV-32
+collisions a scenario declares — is recognised by the monitor's `isHashOf`: the premise of `deploy_monitor_ok` /
+`run_monitor_ok` holds for every collision table. -/
+theorem drv_hash_recognised (coll : List JColl) (X : List Obj) (k : Nat) :
+    isSymHashOf coll (symHash coll X k) X = true := by
+  simp [isSymHashOf, symHash]
+
+/-- **drv_run_monitor_ok**: `run_monitor_ok` for the hash of the driver: whatever real collisions a scenario
+declares, the model's trace passes the monitor (so a monitor failure on an implementation trace is never an
+artefact of a declared collision). -/
+theorem drv_run_monitor_ok (coll : List JColl) (limit : Nat) (strat : Strategy) (ops : List Op) (w : World SName) :
+    checkRun (isSymHashOf coll) limit strat (stateOf w) ops (modelRun limit strat (symHash coll) w ops) = true :=
+  run_monitor_ok limit strat (symHash coll) (isSymHashOf coll) (drv_hash_recognised coll) ops w
+
+/-- A declared collision IS a collision of the driver's hash, at every collision count (the representative not
+being an alias itself, as `Dep.valid` demands). -/
+theorem drv_declared_collision (coll : List JColl) (e : JColl) (A B : List Obj) (c : Nat)
+    (he : coll.find? (fun x => x.b == B.map (·.id)) = some e) (ha : e.a = A.map (·.id))
+    (hrep : coll.find? (fun x => x.b == A.map (·.id)) = none) :
+    symHash coll A c = symHash coll B c := by
+  simp [symHash, canonKey, he, hrep, ha]
+
+/-- Non-vacuity (REAL collision as input, the situation of seeded defect C14-2): the contents [o2] and [o4] are
+declared to collide.  Reconciling the phases [[o2],[o4]] with EachObject, the model — like the unchanged code —
+does not reuse the clashing name for the different content: the second slice gets collision count 1 and the
+template decodes to the desired phases. -/
+example :
+    let coll : List JColl := [{ a := [2], b := [4], sa := [6394], sb := [17021] }]
+    let o2 : Obj := ⟨2, some 6394⟩
+    let o4 : Obj := ⟨4, some 17021⟩
+    symHash coll [o2] 0 = symHash coll [o4] 0 ∧
+    (reconcile 1048576 .each (symHash coll) ⟨none, [], []⟩ [[o2], [o4]]).map
+        (fun r => (r.2.1, r.1.deploy, decode r.1.slices (r.1.deploy.getD []))) =
+      some (true,
+        some [{ objects := [], slices := [⟨[2], 0⟩] }, { objects := [], slices := [⟨[2], 1⟩] }],
+        some [[o2], [o4]]) := by
+  decide
 
 end
 
@@ -604,20 +741,42 @@ theorem teardown_without_load_counterexample :
     let st : Store Nat := [(7, { objects := [⟨1, some 1⟩], ctl := true, lbl := true, owned := true })]
     let t : Template Nat := [{ objects := [], slices := [7] }]
     decode st t = some [[⟨1, some 1⟩]] ∧
-    (controllerPreFix .archived st t none).calls = [{ teardown := true, phase := 0, objects := [] }] ∧
-    (controllerPreFix .archived st t none).archived = some true ∧
-    (controllerPreFix .archived st t none).finalizerRemoved = true ∧
-    (controller .archived ([] : Store Nat) (inlineTwin [[⟨1, some 1⟩]]) none).calls =
+    (controllerPreFix .archived st t [] none).calls = [{ teardown := true, phase := 0, objects := [] }] ∧
+    (controllerPreFix .archived st t [] none).archived = some true ∧
+    (controllerPreFix .archived st t [] none).finalizerRemoved = true ∧
+    (controller .archived ([] : Store Nat) (inlineTwin [[⟨1, some 1⟩]]) [] none).calls =
       [{ teardown := true, phase := 0, objects := [⟨1, some 1⟩] }] ∧
-    ctlOk st t (controllerPreFix .archived st t none)
-      (controller .archived ([] : Store Nat) (inlineTwin [[⟨1, some 1⟩]]) none) = false := by
+    ctlOk st t (controllerPreFix .archived st t [] none)
+      (controller .archived ([] : Store Nat) (inlineTwin [[⟨1, some 1⟩]]) [] none) = false := by
   decide
 
 /-- The fixed control flow on the same witness: the object is handed to teardown. -/
 example :
     let st : Store Nat := [(7, { objects := [⟨1, some 1⟩], ctl := true, lbl := true, owned := true })]
     let t : Template Nat := [{ objects := [], slices := [7] }]
-    (controller .archived st t none).calls = [{ teardown := true, phase := 0, objects := [⟨1, some 1⟩] }] := by
+    (controller .archived st t [] none).calls = [{ teardown := true, phase := 0, objects := [⟨1, some 1⟩] }] := by
+  decide
+
+/-- Non-vacuity (delegated phase in slices, the situation of seeded defect C14-1): a local phase with one slice
+followed by a phase with a class whose objects live in two slices, no ObjectSetPhase yet.  The in-process
+worker gets phase 0 with its slice loaded, the ObjectSetPhase of phase 1 is created with ALL objects of phase 1
+(not with the empty inline part), exactly as for the inline twin; once the ObjectSetPhase reports Available the
+ObjectSet is Available and in transition, like the twin. -/
+example :
+    let sl (objs : List Obj) : Slice := { objects := objs, ctl := true, lbl := true, owned := false }
+    let o (i : Nat) : Obj := ⟨i, some 1⟩
+    let st : Store Nat := [(10, sl [o 1]), (11, sl [o 2, o 3]), (12, sl [o 4])]
+    let t : Template Nat := [{ objects := [o 0], slices := [10] }, { objects := [], slices := [11, 12], cls := true }]
+    let twin : Template Nat := inlineTwinOf t [[o 0, o 1], [o 2, o 3, o 4]]
+    (controller .active st t [.absent, .absent] none).calls =
+      [{ teardown := false, phase := 0, objects := [o 0, o 1] },
+       { teardown := false, phase := 1, objects := [o 2, o 3, o 4], remote := true }] ∧
+    visible (controller .active st t [.absent, .absent] none) =
+      visible (controller .active ([] : Store Nat) twin [.absent, .absent] none) ∧
+    (controller .active st t [.absent, .available] none).available = some true ∧
+    (controller .active st t [.absent, .available] none).inTransition = true ∧
+    (controller .archived st t [.absent, .available] none).calls =
+      [{ teardown := true, phase := 1, objects := [], remote := true }] := by
   decide
 
 /-- Non-vacuity (chunkers): limit 10, sizes 4,4,4,20,1 → next-fit packs [a,b] [c] [d] [e]; the concatenation is
